@@ -382,11 +382,13 @@ simcam_set(struct Camera* camera, struct CameraProperties* settings)
         return Device_Err;
     }
 
-    if (self->properties.input_triggers.frame_start.enable &&
-        !settings->input_triggers.frame_start.enable) {
-        // fire if disabling the software trigger while live
-        simcam_execute_trigger(camera);
-    }
+    // Disabling the software trigger while live releases a streamer that is
+    // waiting for one. Fired once the new setting is in place: a streamer
+    // released before that would come back to a trigger that is still enabled
+    // and wait for good.
+    const int release_streamer =
+      self->properties.input_triggers.frame_start.enable &&
+      !settings->input_triggers.frame_start.enable;
 
     enum DeviceStatusCode status = Device_Ok;
 
@@ -432,6 +434,8 @@ simcam_set(struct Camera* camera, struct CameraProperties* settings)
 
 Finalize:
     lock_release(&self->im.lock);
+    if (release_streamer)
+        simcam_execute_trigger(camera);
     return status;
 Error:
     status = Device_Err;
